@@ -214,7 +214,11 @@ def term_correspondence(chk, fam, text, symm, variant, pairs, zs, ns, negl):
                  sample={"scenario": L.canon(text), "pair": [i, j], "matched/kept/dropped/new/merged/negl/refused": tot,
                          "walk": {"strict": strict, "lenient": lenient}} if tot[5] or "PastEnd" in strict else None)
         if tot[6]:
-            chk.tie_broken("insert refused", "the model saw a refused insertion (excluded by termlist_invariant): %s" % L.canon(text))
+            chk.tie_broken("term lost", "the model's add_term loop ran out of its bound (excluded by termlist_loop_terminates): %s" % L.canon(text))
+        chain = max([int(t[3]) for t in L.recs(r.model, "MCHAIN")] or [0])
+        if chain > 1:
+            chk.tie_broken("merge chain", "an added term went through %d merges (termlist_invariant / gf_part_events_short: at most "
+                           "one with the library's comparator): %s" % (chain, L.canon(text)))
     return res
 
 
@@ -305,8 +309,9 @@ def run(chk):
                     "the control structure of GreensFunctionPart::compute, TermList::add_term / operator(), the call operators of GreensFunctionPart and "
                     "GreensFunction (coq/gen/Gen_Leh*.v in the vocabulary coq/theories/LehmannShapes.v); coq/theories/LehmannInterp.v gives the descriptions "
                     "their meaning; Properties_C01_source.v = the agreement with the hand-written models and the theorems about the interpreted source. "
-                    "coq/theories/TermList.v models add_term in its find/erase/insert form: it agrees with the retry loop of the source when at most one "
-                    "stored term is like the added one (add_term_src_agrees_with_model) and differs otherwise (add_term_forms_differ)",
+                    "coq/theories/TermList.v models add_term as the retry loop the source has (insert; while refused: reduce with the blocking term, erase it, "
+                    "return if negligible, retry): it agrees with the interpreted source on every input, no hypothesis (add_term_src_agrees_with_model); the "
+                    "former find/erase/insert form is kept as add_term_findform (add_term_forms_differ)",
                     "extraction: ExtrOcamlBasic, ExtrOcamlNatInt, ExtrOCamlFloats; no Extract Constant of our own",
                     "ocaml/driver_c01.ml, ocaml/driver_ed.ml (parsing, assembling, printing), harness/h_c01.cpp, harness/h_ed.cpp, harness/ed_common.h",
                     "Eigen's self-adjoint solver: certified per run (|HU-UE|, |U^+U-1| < 1e-9 from the oracle driver); exp of libm",
